@@ -1311,14 +1311,14 @@ func (o *ovsdbClient) handleInactivityProbes() {
 		case ts := <-echoReplied:
 			// Got a response from the server, check it against lastEcho; if same clear lastEcho; if not same Disconnect()
 			if ts != lastEcho {
-				o.Disconnect()
+				o.dropConnection()
 				return
 			}
 			lastEcho = ""
 		case <-time.After(o.options.inactivityTimeout):
 			// If there's a lastEcho already, then we didn't get a server reply, disconnect
 			if lastEcho != "" {
-				o.Disconnect()
+				o.dropConnection()
 				return
 			}
 			// Otherwise send an echo
@@ -1328,7 +1328,7 @@ func (o *ovsdbClient) handleInactivityProbes() {
 			// Can't use o.Echo() because it blocks; we need the Call object direct from o.rpcClient.Go()
 			call := o.sendEcho(args, &reply)
 			if call == nil {
-				o.Disconnect()
+				o.dropConnection()
 				return
 			}
 			lastEcho = thisEcho
@@ -1341,11 +1341,11 @@ func (o *ovsdbClient) handleInactivityProbes() {
 					if call.Error != nil {
 						// RPC timeout; disconnect
 						o.logger.V(3).Error(call.Error, "server echo reply error")
-						o.Disconnect()
+						o.dropConnection()
 					} else if !reflect.DeepEqual(args, reply) {
 						o.logger.V(3).Info("warning: incorrect server echo reply",
 							"expected", args, "reply", reply)
-						o.Disconnect()
+						o.dropConnection()
 					} else {
 						// Otherwise stuff thisEcho into the echoReplied channel
 						echoReplied <- thisEcho
@@ -1406,6 +1406,7 @@ func (o *ovsdbClient) handleDisconnectNotification() {
 
 	// clear connection state
 	o.rpcClient = nil
+	o.connected = false
 	o.rpcMutex.Unlock()
 
 	for _, db := range o.databases {
@@ -1449,6 +1450,19 @@ func (o *ovsdbClient) _disconnect() {
 		return
 	}
 	o.rpcClient.Close()
+}
+
+// dropConnection closes the connection on behalf of the inactivity probe. It
+// does not wait for the calls in flight, as Disconnect does: they hold the
+// read lock until the silent peer answers, and closing the connection is what
+// makes them return
+func (o *ovsdbClient) dropConnection() {
+	o.rpcMutex.RLock()
+	rpcClient := o.rpcClient
+	o.rpcMutex.RUnlock()
+	if rpcClient != nil {
+		rpcClient.Close()
+	}
 }
 
 // Disconnect will close the connection to the OVSDB server
